@@ -147,6 +147,92 @@ def fault_val_groups(rng, tier):
     return groups
 
 
+# ------------------------------------------------------------------------------------------------
+# residual-adaptive generators: a fault while the data generator refines itself inside the loop
+# ------------------------------------------------------------------------------------------------
+def _rar_cases(rng, tier):
+    """real LossODE / LossPDEStatio / LossPDENonStatio + RAR-configured generator (harness/rarlib.py), SGD(1/2),
+    a NaN update of every leaf at iteration k; the reference is the fault-free run of the same program"""
+    from harness import c16
+
+    out = []
+    statics = [("ode", 0, c16._ODE[0], None), ("ode", 0, c16._ODE[3], None), ("statio", 2, None, c16._STATIO[0][1]),
+               ("statio", 1, None, c16._STATIO[5][1]), ("nonstatio", 2, c16._NONSTATIO[0][1], c16._NONSTATIO[0][2])]
+    if tier == "quick":
+        statics = [statics[0], rng.choice(statics[2:4]), statics[4]]
+    for kind, dim, T, X in statics:
+        for (start, every) in (((0, 1), (2, 2)) if tier == "quick" else ((0, 1), (1, 2), (2, 2), (3, 1))):
+            base = c16._with_schedule(c16._base(rng, kind, dim, T, X, "solve"), start, every, extra=3)
+            n = base["n_iter"]
+            ks = sorted({0, start, min(start + every, n - 1), n - 1}) if tier == "quick" else list(range(n))
+            out.append({"rar": True, "segs": [{**base, "k": k} for k in ks]})
+    return out
+
+
+def _run_rar(seg):
+    import jax
+    import jax.numpy as jnp
+    import numpy as np
+    import optax
+    import jinns
+    from harness import rarlib
+    from jinns.parameters import Params
+
+    n, k = int(seg["n_iter"]), int(seg["k"])
+
+    def leaves(p):
+        return [[sp.vstr(x) for x in np.asarray(l, dtype=float).reshape(-1)] for l in jax.tree_util.tree_leaves(p)]
+
+    def one(fault_at):
+        S = rarlib.build(seg)
+        params = S["params"]
+        base = optax.sgd(0.5)
+        ticks = []
+
+        def init(p):
+            return (base.init(p), jnp.zeros((), dtype=jnp.int32))
+
+        def update(grads, state, params=None):
+            st, c = state
+            jax.debug.callback(lambda a: ticks.append(int(a)), c, ordered=True)
+            upd, st = base.update(grads, st, params)
+            if fault_at is not None:
+                upd = jax.tree_util.tree_map(lambda u: jnp.where(c == fault_at, jnp.nan, u), upd)
+            return upd, (st, c + 1)
+
+        opt = optax.GradientTransformation(init, update)
+        tracked = jax.tree_util.tree_map(lambda _: True, params)
+        out = jinns.solve(n_iter=n, init_params=params, data=S["gen"], loss=S["loss"], optimizer=opt,
+                          tracked_params=tracked, verbose=False)
+        jax.block_until_ready(jax.tree_util.tree_leaves(out[0]))
+        jax.effects_barrier()
+        p_out, loss_hist, term_hist, _, _, _, stored = out[:7]
+        names = sorted(term_hist)
+        return {"iters": len(ticks), "params": leaves(p_out), "init": leaves(params),
+                "loss_hist": [sp.vstr(x) for x in np.asarray(loss_hist, dtype=float)],
+                "term_hist": [[sp.vstr(np.asarray(term_hist[nm], dtype=float)[i]) for nm in names] for i in range(n)],
+                "tracked": [[[sp.vstr(x) for x in np.asarray(l, dtype=float)[i].reshape(-1)]
+                             for l in jax.tree_util.tree_leaves(stored)] for i in range(n)],
+                "n_terms": len(names)}
+
+    try:
+        A = one(None)
+        B = one(k)
+    except Exception as e:  # a rejection by jinns is an observation
+        from harness import core
+        return {"A": {"error": core.err_kind(e)}, "ref": None}
+    nanp = [[sp.NAN for _ in l] for l in A["init"]]
+    thetas = [A["init"]] + [A["tracked"][j] for j in range(k)] + [nanp] * (n - k)
+    ref = {"n": n, "thetas": thetas, "losses": A["loss_hist"], "terms": A["term_hist"],
+           "tracked": [A["tracked"][j] for j in range(k)] + [nanp] * (n - k),
+           "zero_tracked": [["0" for _ in l] for l in A["init"]], "n_terms": A["n_terms"]}
+    obs = {"iters": B["iters"], "batches": [], "params": B["params"], "loss_hist": B["loss_hist"],
+           "term_hist": B["term_hist"], "tracked": B["tracked"], "opt": {"count": None, "trace": None}, "gen": [],
+           "crit_hist": None, "best": None, "calls": []}
+    return {"A": obs, "ref": ref, "ref_iters": A["iters"]}
+
+
+
 def gen_cases(rng, tier):
     cases = []
     nbases = 8 if tier == "quick" else 30
@@ -183,6 +269,7 @@ def gen_cases(rng, tier):
             cases.append({"segs": [{**seg, "k": k, "jit": False} for k in (0, 3)]})
     for g in fault_val_groups(rng, tier):
         cases.append({"segs": g})
+    cases += _rar_cases(rng, tier)
     # the (slow, eager) Python-loop cases go first so that they overlap with the bulk of the work
     def _slow(c):
         return bool((c.get("seg") or c["segs"][0]).get("sharding"))
@@ -190,6 +277,8 @@ def gen_cases(rng, tier):
 
 
 def shrink_candidates(case):
+    if case.get("rar") and len(case["segs"]) == 1:
+        return
     if len(case["segs"]) > 1:
         for s in case["segs"]:
             yield {"segs": [s]}
@@ -224,6 +313,8 @@ def _resolved(seg, batches):
 
 
 def run_impl(case):
+    if case.get("rar"):
+        return {"runs": [_run_rar(seg) for seg in case["segs"]]}
     runs = []
     for seg in case["segs"]:
         data, pdata, odata = sp.build_generators(seg["gens"])
@@ -239,6 +330,11 @@ def run_impl(case):
 
 
 def lean_request(case, obs):
+    if case.get("rar"):
+        return [{"op": "c18ref", "ref": rec["ref"], "obs": rec["A"]} if rec["ref"] is not None else
+                {"op": "c18ref", "ref": {"n": 1, "thetas": [], "losses": [], "terms": [], "tracked": [],
+                                          "zero_tracked": [], "n_terms": 0}, "obs": rec["A"]}
+                for rec in obs["runs"]]
     reqs = []
     for seg, rec in zip(case["segs"], obs["runs"]):
         rs = _resolved(seg, rec["batches"])
@@ -261,6 +357,8 @@ def judge(case, obs, answers):
 
 
 def nontrivial(case, obs):
+    if case.get("rar"):
+        return any(rec["ref"] is not None and seg["k"] >= 1 for seg, rec in zip(case["segs"], obs["runs"]))
     for seg, rec, k in zip(case["segs"], obs["runs"], obs.get("_fault_at", [])):
         if k is not None and k >= 1 and "error" not in rec["A"] and rec["A"]["params"] != sp.theta_json(seg["params"]):
             return True
@@ -269,6 +367,9 @@ def nontrivial(case, obs):
 
 def tags(case, obs):
     seg = case["segs"][0]
+    if case.get("rar"):
+        return [f"rar_generator:{seg['kind']}", "route=opt", f"rar_schedule=({seg['start']},{seg['every']})"] + \
+               [f"fault_at={k}" for k in obs.get("_fault_at", [])]
     out = [f"route={seg['route']}", f"opt={seg['opt']['kind']}",
            "python_loop(obs_batch_sharding)" if seg.get("sharding") else
            ("jit_wrapped" if seg.get("jit", True) else "plain_call")]
@@ -285,6 +386,7 @@ def tags(case, obs):
 
 def widen(rng, bad_cases):
     out = []
+    bad_cases = [c for c in bad_cases if not c.get("rar")]
     for c in bad_cases:
         for seg in c["segs"][:3]:
             for k in range(0, 5):
